@@ -2599,6 +2599,7 @@ class GreedyRange(Subconstruct):
     def _parse(self, stream, context, path):
         discard = self.discard
         obj = ListContainer()
+        fallback = stream_tell(stream, path)
         try:
             for i in itertools.count():
                 context._index = i
